@@ -757,7 +757,7 @@ def _ufunc(ufunc, method, *inputs, **kw):
     name = ufunc.__name__
     kw.pop('out', None) if kw.get('out') is None else None
     if any(_is_arr(x) for x in inputs):
-        arrs = numpy.broadcast_arrays(*[x if isinstance(x, numpy.ndarray) else _box(x) for x in inputs])
+        arrs = numpy.broadcast_arrays(*[x.view(numpy.ndarray) if isinstance(x, numpy.ndarray) else _box(x) for x in inputs])
         out = numpy.empty(arrs[0].shape, dtype=object)
         for idx in numpy.ndindex(arrs[0].shape):
             args = [ar[idx] for ar in arrs]
@@ -803,6 +803,13 @@ def _ufunc(ufunc, method, *inputs, **kw):
     if name == 'sign':
         x = lift(a[0])
         return 1.0 if x > 0 else (-1.0 if x < 0 else 0.0)
+    if name == 'clip':
+        x, lo, hi = a
+        if lo is not None:
+            x = sym_max(x, lo)
+        if hi is not None:
+            x = sym_min(x, hi)
+        return x
     if name == 'maximum':
         return sym_max(*a)
     if name == 'minimum':
@@ -1196,3 +1203,45 @@ def nan_to_num_obj(x, copy=True, nan=0.0, posinf=None, neginf=None):
 
 
 _REAL_NAN_TO_NUM = numpy.nan_to_num
+
+
+# --------------------------------------------------------------------------
+_FLOATISH = (float, numpy.float64, numpy.floating, 'float', 'float64', 'f8', 'd')
+
+
+def _has_sym(a):
+    if is_sym(a):
+        return True
+    if isinstance(a, numpy.ndarray):
+        return a.dtype == object and any(is_sym(v) for v in a.ravel())
+    if isinstance(a, (list, tuple)):
+        return any(_has_sym(v) for v in a)
+    if hasattr(a, 'values') and hasattr(a, 'dtype'):
+        return _has_sym(getattr(a, 'values'))
+    return False
+
+
+def float_coercion_patches():
+    """numpy.asarray / numpy.array / numpy.asanyarray called with dtype=float on symbolic contents keep the object
+    dtype (a symbolic real *is* a float for the purposes of the encoding).  Only the top-level numpy attributes that
+    library code reaches are wrapped; numpy's own internals are untouched."""
+    out = []
+    for name in ('asarray', 'array', 'asanyarray', 'ascontiguousarray'):
+        orig = getattr(numpy, name)
+
+        def make(orig):
+            def wrapper(a, dtype=None, *args, **kw):
+                try:
+                    floatish = dtype in _FLOATISH
+                except TypeError:
+                    floatish = False
+                if floatish and _has_sym(a):
+                    r = orig(a, object, *args, **kw)
+                    return r.view(SymArray) if isinstance(r, numpy.ndarray) and r.ndim > 0 else r
+                if dtype is None:
+                    return orig(a, *args, **kw)
+                return orig(a, dtype, *args, **kw)
+            wrapper.__wrapped__ = orig
+            return wrapper
+        out.append((numpy, name, make(orig)))
+    return out
